@@ -248,9 +248,11 @@ type ef_type =
   nat -> graph -> config -> nat list -> (nat -> load option) -> nat -> bool
   -> bool -> plan -> plan res
 
+val exit_failure : nat
+
 val step_res_gen :
-  ef_type -> graph -> config -> (nat -> load option) -> state -> event ->
-  state res
+  bool -> ef_type -> graph -> config -> (nat -> load option) -> state ->
+  event -> state res
 
 val step_res :
   graph -> config -> (nat -> load option) -> state -> event -> state res
